@@ -19,5 +19,21 @@ def multiword_keyword():
     return False
 
 
+def recursive_across_modules():
+    core.setup_path()
+    import asn1tools
+    one = ('M DEFINITIONS AUTOMATIC TAGS ::= BEGIN A ::= SEQUENCE { b B OPTIONAL, x INTEGER } '
+           'B ::= SEQUENCE { a A OPTIONAL } END')
+    two = ('M DEFINITIONS AUTOMATIC TAGS ::= BEGIN IMPORTS B FROM N; A ::= SEQUENCE { b B OPTIONAL, x INTEGER } END '
+           'N DEFINITIONS AUTOMATIC TAGS ::= BEGIN IMPORTS A FROM M; B ::= SEQUENCE { a A OPTIONAL } END')
+    v = {'x': 1, 'b': {'a': {'x': 2}}}
+    ref = asn1tools.compile_string(one, 'uper').encode('A', v)
+    try:
+        got = asn1tools.compile_string(two, 'uper').encode('A', v)
+    except Exception:
+        return True
+    return got != ref
+
+
 if __name__ == '__main__':
     sys.exit(1 if globals()[sys.argv[1]]() else 0)
